@@ -142,7 +142,7 @@ CHECKS = {
     "C20": dict(
         category="model_checking",
         technique="stateless schedule exploration of the real protocol loop under a virtual clock and a controlled delivery scheduler (deviation-bounded around two base schedules), plus a free-running real-thread pass",
-        text="The unmodified _generate_io loop runs in-process against scripted external parties (nine specs: ping-pong with alternatives and a constraint, optional/repeated exchanges, alternative reply types with an echo constraint, bytes, two peers, one type from two senders, look-ahead, a thrice repeated exchange whose search runs dry, a reply that depends on the received message) and peer behaviours (valid, wrong type, constraint-violating, truncated, glued/garbage tail, unsolicited early, one peer silent). At every lock-protected buffer access and every poll the explorer decides how many pending remote characters/bytes arrive first, from which peer, or whether the timeout expires; all schedules within deviation bound 2 (thorough 3) of 'everything arrives immediately' and of 'one unit per step' are executed. Oracle per execution: message history is a prefix of an interaction at every step, correct attribution, transmitted messages == recorded ones in order, accepted remote data == delivered data, every message satisfies type and constraints, misbehaving peers never yield a complete interaction.",
+        text="The unmodified _generate_io loop runs in-process against scripted external parties (ten specs: ping-pong with alternatives and a constraint, optional/repeated exchanges, alternative reply types with an echo constraint, bytes, two peers, one type from two senders, look-ahead, a thrice repeated exchange whose search runs dry, a reply that depends on the received message, message lengths announced in the other side's previous message in both directions) and peer behaviours (valid, wrong type, constraint-violating, truncated, glued/garbage tail, unsolicited early, one peer silent). At every lock-protected buffer access and every poll the explorer decides how many pending remote characters/bytes arrive first, from which peer, or whether the timeout expires; all schedules within deviation bound 2 (thorough 3) of 'everything arrives immediately' and of 'one unit per step' are executed. Oracle per execution: message history is a prefix of an interaction at every step, correct attribution, transmitted messages == recorded ones in order, accepted remote data == delivered data, every message satisfies type and constraints, misbehaving peers never yield a complete interaction.",
         note="The fuzzer's own random decisions are fixed by random.seed(k) for a few k. Real threads only in the separate free-running pass (no scheduler). One consequence of the C19 forecasting defect is a recorded known finding.",
         design="4 C20",
     ),
